@@ -8,7 +8,7 @@ PROP = {
                    "WasFull rule, search-bound encoder, capacity rule) and universally quantified over the hash function: lookup = membership under "
                    "the placement invariant, every operation preserves the invariant and refines the abstract map, traversal visits each element "
                    "once. The model is run against the real containers for all bucket types on every check and must reproduce results, counts, "
-                   "capacities, generations and the complete bucket layout (items in storage order, WasFull flags, search bounds). GetStartBucketIndex, the four GetNextBucketIndex variants, BucketBase::GetMaxProbe, GetBucketCountShift (base and open-addressing), HashBucketBase::CalcCapacity (integer branches; the one floating-point expression stays an uninterpreted parameter) and HashSet::pvGetNewLogBucketCount are additionally TRANSLATED from the header text on every run (tools/translate.py, tools/trspecs/HashProbe.py) and proved equal to the model's start / nextIdx / maxProbe / shiftOf / newLog / capacityOf; the model's slot search is the probe loop over the translated functions (C01_*_translated)."),
+                   "capacities, generations and the complete bucket layout (items in storage order, WasFull flags, search bounds). GetStartBucketIndex, the four GetNextBucketIndex variants, BucketBase::GetMaxProbe, GetBucketCountShift (base and open-addressing), HashBucketBase::CalcCapacity (integer branches; the one floating-point expression stays an uninterpreted parameter) and HashSet::pvGetNewLogBucketCount are additionally TRANSLATED from the header text on every run (tools/translate.py, tools/trspecs/HashProbe.py) and proved equal to the model's start / nextIdx / maxProbe / shiftOf / newLog / capacityOf; the model's slot search is the probe loop over the translated functions (C01_*_translated). For the two open-addressing bucket classes with one state byte (BucketOpenN1<1..7, reverse>, BucketOpen8) the bucket is additionally modelled at BYTE level (Momo.OpenB, run against the real bucket classes by the C13 harness c13_openbytes): the abstract bucket of the table model is the abstraction of the byte-level bucket, AddCrt / Remove / IsFull commute with it, the table model's in-bucket lookup agrees with the byte-level Find of every variant (scalar loop in either item order, SSE2 mask, 64-bit SWAR mask), and pvFind evaluated over byte-level buckets is the model's findTable, so C01_find_iff holds for it (C01_*_bytes)."),
     "level_note": ("Trusted: Lean kernel + 3 standard axioms, extractor, harness (g++, -fno-access-control). Modelled not verified: item layout and "
                    "alignment inside buckets, memcpy relocation, short-hash bytes (C12), SSE2 in-bucket search of Open8, float capacity formulas "
                    "(modelled as exact rational floor; compared at every growth)."),
@@ -30,6 +30,10 @@ PROP = {
         "Momo.HT.C01_growth_translated",
         "Momo.HT.unrestricted_faults_counterexample",
         "Momo.HT.C01_history_full_false",
+        "Momo.OpenB.C01_bucket_abstraction_bytes",
+        "Momo.OpenB.C01_bucket_lookup_bytes",
+        "Momo.OpenB.C01_find_iff_bytes",
+        "Momo.OpenB.C01_slots_translated",
     ],
     "harnesses": [
         {"name": "c01_chain", "src": "c01_hash.cpp", "flags": ["-DVF_PART=0"]},
@@ -43,6 +47,6 @@ PROP = {
              "the same result, count, capacity, generations and layout checksum; every 16 ops the property-level oracle (std::map) checks every "
              "key, absent keys and the traversal. distinct_nontrivial = number of distinct (instantiation, hash family, run) histories."),
     "runtime_only": ["leak / double-free ledger of the memory manager and element counters at the end of every history (C03 piggyback)"],
-    "not_modelled": ["short-hash bytes and hash-probe bytes (C12)", "in-bucket scan order of Find (irrelevant while keys are distinct)",
+    "not_modelled": ["short-hash bytes and hash-probe bytes of LimP4 / Open2N2 / One inside the table model (byte level: C12; OpenN1 / Open8 byte level: C01_*_bytes, C13_open*)", "in-bucket scan order of Find inside the table model (irrelevant while keys are distinct; at byte level C13_openbytes_find_every_order covers every order)",
                      "ResetKey, Add(position) variants (forwarders to the modelled pvAdd)"],
 }
